@@ -596,7 +596,13 @@ func gBetaStatus(t *rapid.T, bluegreen bool) v1beta1.RolloutStatus {
 // gBetaRollout draws a v1beta1 Rollout. kind: 0 canary restricted to v1alpha1-expressible
 // fields, 1 canary unrestricted, 2 blue-green, 3 empty strategy (all admitted by the schema).
 func gBetaRollout(t *rapid.T, kind int) *v1beta1.Rollout {
-	r := &v1beta1.Rollout{ObjectMeta: gMeta(t, []string{"<absent>"})}
+	// the stored object may carry a rolling-style annotation left by an earlier write through
+	// v1alpha1 (the conversion copies metadata); it may be stale with respect to the v1beta1 field
+	styles := []string{"<absent>"}
+	if kind <= 1 {
+		styles = alphaStyleVals
+	}
+	r := &v1beta1.Rollout{ObjectMeta: gMeta(t, styles)}
 	delete(r.Annotations, v1alpha1.TrafficRoutingAnnotation)
 	r.Spec.WorkloadRef = v1beta1.ObjectRef{APIVersion: rapid.SampledFrom([]string{"apps/v1", "apps.kruise.io/v1alpha1", ""}).Draw(t, "wref-api"), Kind: rapid.SampledFrom([]string{"Deployment", "CloneSet", ""}).Draw(t, "wref-kind"), Name: gName(t, "wref-name")}
 	r.Spec.Disabled = gBool(t, "disabled")
